@@ -769,9 +769,11 @@ func (e *Executor) Pending(ctx context.Context) ([]File, error) {
 		}); first != -1 && first < idx && e.order != ExecOrderLinearSkip {
 			var skipped []File
 			for _, f := range migrations[first:idx] {
-				if _, found := slices.BinarySearchFunc(revs, f, func(r *Revision, f File) int {
+				// A file that was executed out of order and failed in the middle
+				// is still pending, as its revision is not the last one.
+				if i, found := slices.BinarySearchFunc(revs, f, func(r *Revision, f File) int {
 					return strings.Compare(r.Version, f.Version())
-				}); !found {
+				}); !found || revs[i].Applied != revs[i].Total {
 					skipped = append(skipped, f)
 				}
 			}
